@@ -36,6 +36,7 @@ import re
 
 def _chain_compare(case, obs, model):
     m = re.sub(r' ; WF [01]$', '', model)
+    obs = re.sub(r' ; DBG .*$', '', obs)
     if obs.startswith('BIND err') and m.startswith('BIND err'):
         return True
     return obs == m
@@ -96,6 +97,10 @@ def _nt_c15(case, obs):
     if not obs.startswith('BIND ok'):
         return False
     return any(':u' in t for t in _sections(obs).get('RMAP', []))
+
+
+def _nt_dbg(case, obs):
+    return ' ; DBG ' in obs
 
 
 def _nt_err(case, obs):
@@ -277,15 +282,24 @@ PROPS = {
     ),
     'C12': dict(
         monitor=True,
-        streams=[conc_stream('debuglock', 60, 1500)],
-        rule='stream debuglock: 2-11 goroutines each Bind three chains, a chosen subset failing (missing provider), under the race detector with yield perturbation '
+        streams=[conc_stream('debuglock', 60, 1500),
+                 chain_stream(4000, 100000, _nt_dbg, name='debugging'),
+                 pair_stream('dbgneutral', 4000, 100000)],
+        rule='stream debugging: Reorder-rich chains in which every provider has a unique name and one to three providers (possibly the final function) take '
+             '*Debugging; besides the usual observation the harness records, from the first non-nil Debugging value a provider receives, NamesIncluded and the '
+             'INCLUDED/EXCLUDED counts of IncludeExclude; monitor: NamesIncluded is exactly the names of the included entries of the final working list in '
+             'execution order (which the call log is checked against by the correspondence), one INCLUDED line per included and one EXCLUDED line per '
+             'other supplied provider. stream dbgneutral: a chain without any *Debugging parameter, paired with the same chain with such a parameter added '
+             'to one provider; monitor: same validity, the same other providers included, same results and call log once the added argument is dropped. '
+             'stream debuglock: 2-11 goroutines each Bind three chains, a chosen subset failing (missing provider), under the race detector with yield perturbation '
              'at the lock hooks; observed: all Binds return (watchdog), failing ones report an error whose DetailedError starts with the plain text and mentions '
              'no other goroutine\'s collection, succeeding ones yield working chains',
         level_text='Theorem debug_lock_no_deadlock_no_crosstalk (interleaving semantics of the RWMutex protocol of bindFast / captureDoBindDebugging: for any '
                    'mix of failing and succeeding Binds and every schedule some unfinished Bind can always step, and every line logged while debugging is on '
                    'belongs to the Bind holding the write lock) and chain_refines (what runs is the included providers of the final list, which is what the '
                    'Debugging value is filled from); Coq, no axioms.',
-        level_note=CONC_NOTE + ' Invocations (not Binds) running while a failed Bind is being replayed also log into its trace; that is outside the statement.',
+        level_note=CONC_NOTE + ' Invocations (not Binds) running while a failed Bind is being replayed also log into its trace; that is outside the statement. '
+                   'Defect D26 (asking for *Debugging changed which providers are included) was repaired in /repo.',
         design_ref='DESIGN.md section 8 (C12)',
         assumptions=['Go RWMutex: a waiting writer blocks new readers'],
     ),
